@@ -801,6 +801,59 @@ func (w *c06World) holes(t *testing.T, s *verifStream, n int, quick bool) {
 	}
 }
 
+// scale: many distinct clients on the replica path.  A chain of blocks of 128 commands in which each
+// of C clients has its command (c, 1) executed, followed by a lagging leader's blocks repeating
+// executed commands of early, middle and late clients next to a few new ones.  Replica 0 commits it
+// block by block, replica 1 in one call with the blocks stored, replica 2 in one call fetching them.
+func (w *c06World) scale(t *testing.T, s *verifStream, C int) {
+	cmd := func(i int, seq uint64) c06Cmd {
+		return c06Cmd{C: uint32(1 + 13*i), S: seq, D: []byte{byte(i), byte(i >> 8), byte(i >> 16), byte(seq)}}
+	}
+	var blocks []c06Blk
+	var cur []c06Cmd
+	flush := func() {
+		if len(cur) > 0 {
+			blocks = append(blocks, c06Blk{Parent: len(blocks) - 1, View: uint64(len(blocks) + 1), Cmds: cur})
+			cur = nil
+		}
+	}
+	for i := 0; i < C; i++ {
+		cur = append(cur, cmd(i, 1))
+		if len(cur) == 128 {
+			flush()
+		}
+	}
+	flush()
+	for round := 0; round < 3; round++ {
+		for _, z := range []int{0, C / 2, C - 40} {
+			for k := 0; k < 36; k++ {
+				cur = append(cur, cmd((z+(k*7+round*11)%40)%C, 1))
+				if round > 0 {
+					cur = append(cur, cmd((z+k%4+4*(round-1))%C, 2))
+				}
+			}
+			for k := 0; k < 4; k++ {
+				cur = append(cur, cmd((z+k+4*round)%C, 2))
+			}
+		}
+		flush()
+	}
+	n := len(blocks)
+	var ops0, ops1, ops2 []c06Op
+	for i := 0; i < n; i++ {
+		ops0 = append(ops0, c06Op{Kind: "try", Blk: i, Target: i})
+		if i < n-1 {
+			ops1 = append(ops1, c06Op{Kind: "store", Blk: i})
+			ops2 = append(ops2, c06Op{Kind: "peer", Blk: i})
+		}
+	}
+	// the catching-up replicas commit the first-execution part and the repeats in two calls
+	ops1 = append(ops1, c06Op{Kind: "try", Blk: n - 1, Target: n - 4}, c06Op{Kind: "try", Blk: n - 1, Target: n - 1})
+	ops2 = append(ops2, c06Op{Kind: "try", Blk: n - 1, Target: n - 4}, c06Op{Kind: "try", Blk: n - 1, Target: n - 1})
+	w.v.Count(fmt.Sprintf("rep_s:clients=%d", C))
+	w.run(t, s, "rep_s", c06Scenario{Blocks: blocks, Replicas: [][]c06Op{ops0, ops1, ops2}})
+}
+
 func TestVerifC06(t *testing.T) {
 	logging.SetLogLevel("error")
 	v := verifNew("C06")
@@ -818,6 +871,11 @@ func TestVerifC06(t *testing.T) {
 	hs := v.Stream("rep_h", "replica_mismatches", 300)
 	for n := 2; n <= v.Pick(5, 7); n++ {
 		w.holes(t, hs, n, !v.Thorough())
+	}
+	ss := v.Stream("rep_s", "replica_mismatches", 1)
+	w.scale(t, ss, 1500)
+	if v.Thorough() {
+		w.scale(t, ss, 5000)
 	}
 	cs := v.Stream("rep_c", "replica_mismatches", 4)
 	lens := []int{1, 2, 5, 17, 33, 34, 35, 50}
